@@ -140,7 +140,7 @@ impl<'c> MGen<'c> {
                     rhs: e,
                 });
                 if self.cfg.if_stmt && d.chance(1, 3) {
-                    let c = self.gen_bool(d, &sc, 1);
+                    let c = self.gen_cond(d, &sc, 1);
                     let mut sc2 = sc.clone();
                     sc2.vars.push(l);
                     let e2 = self.gen_rhs(d, &sc2, t);
@@ -190,7 +190,9 @@ impl<'c> MGen<'c> {
         }
         let syntax = if as_output { TySyntax::Logic } else { self.gen_syntax(d, ty) };
         let id = self.add_decl(name, kind, ty, syntax);
+        self.maybe_cast_only(d, id);
         if !as_output && self.cfg.arrays && d.chance(1, 6) {
+            self.cast_only.remove(&id);
             self.m.decls[id].array = Some(2 + d.below(5));
             // keep arrays narrow enough to be cheap
             self.class("var:array");
@@ -210,8 +212,8 @@ impl<'c> MGen<'c> {
         };
         if let Some(n) = dd.array {
             if self.cfg.for_stmt && d.chance(2, 3) {
-                let iname = self.fresh("i");
-                let iv = self.add_decl(iname, DeclKind::LoopVar, Ty::u(32), TySyntax::Fixed);
+                let iname = self.fresh("ix");
+                let iv = self.add_decl(iname, DeclKind::LoopVar, Ty::s(32), TySyntax::Fixed);
                 self.loop_ranges.insert(iv, n);
                 let mut sc2 = sc.clone();
                 sc2.vars.push(iv);
@@ -361,7 +363,7 @@ impl<'c> MGen<'c> {
         let t = targets[d.below_usize(targets.len())];
         match k {
             1 => {
-                let cond = self.gen_bool(d, sc, 2);
+                let cond = self.gen_cond(d, sc, 2);
                 let nt = 1 + d.below(2);
                 let then = self.gen_block(d, sc, targets, depth - 1, blk, nt);
                 let els = match d.weighted(&[2, 2, 1]) {
@@ -372,7 +374,7 @@ impl<'c> MGen<'c> {
                     }
                     _ => {
                         // else if
-                        let c2 = self.gen_bool(d, sc, 1);
+                        let c2 = self.gen_cond(d, sc, 1);
                         let t2 = self.gen_block(d, sc, targets, depth - 1, blk, 1);
                         let e2 = if d.bool() { self.gen_block(d, sc, targets, depth - 1, blk, 1) } else { vec![] };
                         vec![Stmt::If {
@@ -403,7 +405,7 @@ impl<'c> MGen<'c> {
                 let mut arms = vec![];
                 for _ in 0..n {
                     let nc = 1 + d.below(2);
-                    let conds = (0..nc).map(|_| self.gen_bool(d, sc, 1)).collect();
+                    let conds = (0..nc).map(|_| self.gen_cond(d, sc, 1)).collect();
                     arms.push((conds, self.gen_block(d, sc, targets, depth - 1, blk, 1)));
                 }
                 let default = if d.chance(2, 3) { Some(self.gen_block(d, sc, targets, depth - 1, blk, 1)) } else { None };
@@ -411,11 +413,13 @@ impl<'c> MGen<'c> {
                 Stmt::Switch { arms, default }
             }
             4 => {
-                let iname = self.fresh("i");
-                let iv = self.add_decl(iname, DeclKind::LoopVar, Ty::u(32), TySyntax::Fixed);
+                let iname = self.fresh("ix");
+                let iv = self.add_decl(iname, DeclKind::LoopVar, Ty::s(32), TySyntax::Fixed);
                 let lo = d.below(3);
                 let cnt = 1 + d.below(6);
-                let step = if d.chance(1, 5) { 2 } else { 1 };
+                let rev = d.chance(1, 4);
+                // `rev` with a step counts down from the top bound: keep step 1 there
+                let step = if !rev && d.chance(1, 5) { 2 } else { 1 };
                 let incl = d.chance(1, 4);
                 let hi = if incl { lo + cnt - 1 } else { lo + cnt };
                 self.loop_ranges.insert(iv, if incl { hi + 1 } else { hi });
@@ -442,7 +446,7 @@ impl<'c> MGen<'c> {
                 } else {
                     body = self.gen_block(d, &sc2, targets, depth - 1, blk, 1);
                 }
-                let break_if = if d.chance(1, 5) { Some(self.gen_bool(d, &sc2, 1)) } else { None };
+                let break_if = if d.chance(1, 5) { Some(self.gen_cond(d, &sc2, 1)) } else { None };
                 if break_if.is_some() {
                     self.class("stmt:break");
                 }
@@ -452,7 +456,7 @@ impl<'c> MGen<'c> {
                     lo,
                     hi,
                     incl,
-                    rev: d.chance(1, 4),
+                    rev,
                     step,
                     body,
                     break_if,
@@ -548,6 +552,7 @@ fn gen_module(d: &mut Draw, cfg: &GenCfg, name: &str, done: &[Module], children:
         }
         let t = g.gen_ty(d);
         let id = g.add_decl(name, DeclKind::Input, t, TySyntax::Logic);
+        g.maybe_cast_only(d, id);
         sc.vars.push(id);
     }
     g.gen_types(d);
@@ -588,6 +593,7 @@ fn gen_module(d: &mut Draw, cfg: &GenCfg, name: &str, done: &[Module], children:
                 let name = g.fresh("l");
                 let e = g.gen_rhs(d, &sc, ty);
                 let id = g.add_decl(name, DeclKind::Let, ty, syntax);
+                g.maybe_cast_only(d, id);
                 g.m.items.push(Item::Let { decl: id, rhs: e });
                 sc.vars.push(id);
                 g.class("item:let");
@@ -647,7 +653,7 @@ fn gen_module(d: &mut Draw, cfg: &GenCfg, name: &str, done: &[Module], children:
                         }
                     }
                 }
-                let name = g.fresh("u");
+                let name = g.fresh("un");
                 g.m.items.push(Item::Inst {
                     name,
                     module: ci,
@@ -853,6 +859,7 @@ pub fn gen_expr_design(d: &mut Draw, cfg: &GenCfg, n: usize, single_op: bool) ->
         let name = g.fresh("a");
         let t = g.gen_ty(d);
         let id = g.add_decl(name, DeclKind::Input, t, TySyntax::Logic);
+        g.maybe_cast_only(d, id);
         sc.vars.push(id);
     }
     let mut infos = vec![];
@@ -863,15 +870,18 @@ pub fn gen_expr_design(d: &mut Draw, cfg: &GenCfg, n: usize, single_op: bool) ->
         let sg = cfg.signed && d.chance(1, 3);
         let depth = if single_op { 1 } else { 1 + d.below(cfg.expr_depth) };
         let hint = if d.chance(1, 2) { Some(ty) } else { None };
-        let mut e = g.gen_expr(d, &sc, depth, hint, sg);
-        if single_op {
-            // retry a few times to get an operator rather than a leaf
-            let mut tries = 0;
-            while matches!(e, Expr::Lit(_) | Expr::Ref(_)) && tries < 3 {
-                e = g.gen_expr(d, &sc, 1, hint, sg);
-                tries += 1;
+        let e = g.checked(d, ty.w, &mut |g, d| {
+            let mut e = g.gen_expr(d, &sc, depth, hint, sg);
+            if single_op {
+                // retry a few times to get an operator rather than a leaf
+                let mut tries = 0;
+                while matches!(e, Expr::Lit(_) | Expr::Ref(_)) && tries < 3 {
+                    e = g.gen_expr(d, &sc, 1, hint, sg);
+                    tries += 1;
+                }
             }
-        }
+            e
+        });
         let id = g.add_decl(name, DeclKind::Output, ty, TySyntax::Logic);
         let mut maxw = ty.w;
         let mut any_signed = false;
